@@ -76,6 +76,15 @@ func c17Key(e *Env, key string) {
 		fail("C17/describe-output", err.Error())
 		return
 	}
+	// what is reported must not depend on the run (a spelling picked from a map would)
+	for i := 0; i < 5; i++ {
+		r2 := cli.In("", "info", "key", "describe", "--key", key)
+		e.R.Eval(1)
+		if !r2.OK() || string(r2.Stdout) != string(r.Stdout) {
+			fail("C17/describe-varies", fmt.Sprintf("run %d reports something else than the first run: %s", i+2, describeDiff(r.Stdout, r2.Stdout)))
+			return
+		}
+	}
 	if len(d.Diatonic.Triads) != 7 || len(d.Diatonic.Sevenths) != 7 {
 		fail("C17/chord-count", fmt.Sprintf("%d triads and %d sevenths listed", len(d.Diatonic.Triads), len(d.Diatonic.Sevenths)))
 		return
@@ -167,7 +176,7 @@ func c17Key(e *Env, key string) {
 }
 
 func runC17(e *Env) {
-	e.R.Rule = "complete: 28 keys x 14 chords printed by `info key describe`, each checked as notation, then fed through `text conv syllable --key K | write --key K` (all 14 in one text, and one by one) and decoded; distinct = (key, chord); non-trivial = the chord was played and its sounded intervals compared"
+	e.R.Rule = "complete: 28 keys x 14 chords printed by `info key describe` (six runs per key, all alike), each checked as notation, then fed through `text conv syllable --key K | write --key K` (all 14 in one text, and one by one) and decoded; distinct = (key, chord); non-trivial = the chord was played and its sounded intervals compared"
 	e.R.Assume("reference: scale and harmonisation patterns from ref/theory (major: maj min min maj maj min dim / maj7 m7 m7 maj7 7 m7 m7b5; natural minor = rotation by 5)")
 	keys := theory.SupportedKeyNames
 	mc.ParFor(len(keys), func(i int) {
